@@ -28,6 +28,8 @@ type c16Op struct {
 	Subs  []c15Sub `json:"subs,omitempty"`
 	Fs    []string `json:"fs,omitempty"`
 	How   string   `json:"how,omitempty"` // drop: close | disconnect | poke
+	Via   string   `json:"via,omitempty"` // admin: "" = DELETE through the HTTP handler | "store" = the key disappears from the storage (delete-watch only)
+	Will  *c15Will `json:"will,omitempty"` // connect: will message (the recording publish pipeline passes / drops 'D' / disconnects 'X' it)
 	Topic string   `json:"topic,omitempty"`
 	// admin / drop only: force the next Race ops (connect, subscribe of the same id) INTO this one, while the broker is
 	// parked in the Disconnect pipeline of the connection it is closing
@@ -103,6 +105,7 @@ type c16Conn struct {
 	label int
 	cli   *c15Cli
 	gone  bool // the broker side has ended (socket closed by us or by the broker)
+	willX bool // its will makes the publish pipeline answer "disconnect": Client.close() then runs BEFORE the cleanup
 }
 
 func c16Snapshot(env *c15Env, conns []*c16Conn) (sn c16Snap) {
@@ -148,7 +151,8 @@ func c16Snapshot(env *c15Env, conns []*c16Conn) (sn c16Snap) {
 		if err := s.decode(v); err != nil {
 			continue
 		}
-		sn.Db = append(sn.Db, c16Sess{Cid: strings.TrimPrefix(k, sessionStoreKey("")), Clean: s.info.CleanFlag, Topics: c16SortSubs(s.info.Topics)})
+		_ = k // the entry is identified by the client id INSIDE the stored session, not by how the key is spelled
+		sn.Db = append(sn.Db, c16Sess{Cid: s.info.ClientID, Clean: s.info.CleanFlag, Topics: c16SortSubs(s.info.Topics)})
 	}
 	sort.Slice(sn.Db, func(i, j int) bool { return sn.Db[i].Cid < sn.Db[j].Cid })
 	acc := map[string]map[string]int{}
@@ -173,7 +177,7 @@ func c16Run(in c16In) (obs c16Obs) {
 			obs.Bad = append(obs.Bad, fmt.Sprintf("panic: %v", r))
 		}
 	}()
-	env := c15NewEnv(false, nil)
+	env := c15NewEnv(true, nil) // with the recording publish pipeline: it judges the will messages
 	defer env.closeInto(&obs.Bad)
 	conns := []*c16Conn{}
 	find := func(k int) *c16Conn {
@@ -205,13 +209,14 @@ func c16Run(in c16In) (obs c16Obs) {
 				st.Skip = true
 				break
 			}
+			env.will = op.Will
 			cli, code := env.dial(op.Cid, op.Clean, true)
 			if cli == nil || cli.client == nil {
 				obs.Bad = append(obs.Bad, fmt.Sprintf("connect %d refused %d", op.K, code))
 				st.Skip = true
 				break
 			}
-			conns = append(conns, &c16Conn{label: op.K, cli: cli})
+			conns = append(conns, &c16Conn{label: op.K, cli: cli, willX: op.Will != nil && strings.HasPrefix(op.Will.Payload, "X")})
 		case "sub", "unsub":
 			if c == nil || c.gone || c.cli.client.disconnected() {
 				st.Skip = true
@@ -253,7 +258,7 @@ func c16Run(in c16In) (obs c16Obs) {
 				c.cli.waitFor(func() bool { return false })
 				c.cli.closeSock()
 			default:
-				park := op.Race > 0 && racing == 0 && !c.cli.client.disconnected() && !c.cli.client.session.cleanSession()
+				park := op.Race > 0 && racing == 0 && !c.cli.client.disconnected() && !c.cli.client.session.cleanSession() && !c.willX
 				if park {
 					env.gate.arm(c.cli.cid)
 				}
@@ -288,7 +293,9 @@ func c16Run(in c16In) (obs c16Obs) {
 			if park {
 				env.gate.arm(op.Cid)
 			}
-			if code := env.httpDeleteSession(op.Cid); code != 200 {
+			if op.Via == "store" {
+				env.store.delete(sessionStoreKey(op.Cid))
+			} else if code := env.httpDeleteSession(op.Cid); code != 200 {
 				obs.Bad = append(obs.Bad, fmt.Sprintf("admin delete: http %d", code))
 			}
 			if park {
@@ -390,14 +397,45 @@ func c16Gen(r *vfRand, adv bool) c16In {
 	next := 0
 	open := []int{} // labels whose socket the harness has not closed
 	cidOf := map[int]string{}
+	// two client ids per history, often unusual ones ("A"/"B" in the code below are placeholders for them)
+	idA, idB := "A", "B"
+	if r.Chance(1, 2) {
+		idA = c15Ids[r.Intn(len(c15Ids))]
+		idB = c15Ids[r.Intn(len(c15Ids))] + "'"
+	}
+	real := func(cid string) string {
+		if cid == "A" {
+			return idA
+		}
+		if cid == "B" {
+			return idB
+		}
+		return cid
+	}
+	defer func() {
+		for i := range in.Ops {
+			if in.Ops[i].Cid != "" {
+				in.Ops[i].Cid = real(in.Ops[i].Cid)
+			}
+			if in.Ops[i].Op == "admin" && in.Ops[i].Via == "" && r.Chance(1, 3) {
+				in.Ops[i].Via = "store"
+			}
+		}
+	}()
 	pickCid := func() string {
 		if r.Chance(1, 5) {
 			return "B"
 		}
 		return "A"
 	}
+	will := func() *c15Will {
+		if !r.Chance(1, 3) {
+			return nil
+		}
+		return &c15Will{Topic: r.PickStr("will/a", "a/b"), Payload: r.PickStr("P", "P", "D", "D", "X") + "will", Qos: r.Intn(2), Retain: r.Chance(1, 4)}
+	}
 	connect := func(cid string, clean bool) {
-		in.Ops = append(in.Ops, c16Op{Op: "connect", K: next, Cid: cid, Clean: clean})
+		in.Ops = append(in.Ops, c16Op{Op: "connect", K: next, Cid: cid, Clean: clean, Will: will()})
 		open = append(open, next)
 		cidOf[next] = cid
 		next++
